@@ -22,66 +22,74 @@ case "${1:-}" in
 run)
     id="${2:?id}"; nwork="${3:-4}"; nseeds="${4:-16}"
     case "$id" in
-        C19) scenario=aco ;;
-        C05|C06|C08) scenario=ga ;;
+        C19) scenarios="aco" ;;
+        C05|C06) scenarios="ga" ;;
+        C08) scenarios="ga exp" ;;
+        C15) scenarios="exp" ;;
         *) exit 0 ;;
     esac
     if ! available; then echo "thread world: cargo +nightly miri is not available here - skipped (coverage reduced, see evidence)"; exit 3; fi
     seed="${VERIF_SEED:-1}"
     start=$(date +%s)
-    total=0; okc=0
-    for i in $(seq 0 $((nwork-1))); do
-        wseed=$((seed*1000+i)); threads=$((2 + i % 3))
-        out=$(run_one "$scenario" "$wseed" "$threads" "$BASEFLAGS -Zmiri-many-seeds=0..$nseeds")
-        n_ok=$(echo "$out" | grep -c '^THREAD-WORLD ok')
-        total=$((total+nseeds)); okc=$((okc+n_ok))
-        vio=$(echo "$out" | grep -m1 '^THREAD-WORLD VIOLATION')
-        race=$(echo "$out" | grep -m1 -E 'Data race detected|Undefined Behavior')
-        if [ -n "$vio" ] || [ -n "$race" ]; then
+    total=0; okc=0; summary=""
+    for scenario in $scenarios; do
+        flags="$BASEFLAGS"; w=$nwork; k=$nseeds
+        if [ "$scenario" = exp ]; then
+            # file I/O needs the real file system; an execution costs ~30 s of interpretation
+            flags="$BASEFLAGS -Zmiri-disable-isolation"; w=$(( (nwork + 1) / 2 )); k=$(( (nseeds + 1) / 2 ))
+        fi
+        for i in $(seq 0 $((w-1))); do
+            wseed=$((seed*1000+i)); threads=$((2 + i % 3))
+            out=$(run_one "$scenario" "$wseed" "$threads" "$flags -Zmiri-many-seeds=0..$k")
+            n_ok=$(echo "$out" | grep -c 'THREAD-WORLD ok')
+            total=$((total+k)); okc=$((okc+n_ok))
             fs=$(echo "$out" | grep -m1 'FAILING SEED' | sed 's/.*FAILING SEED: *//')
-            [ -z "$fs" ] && fs=0
-            if [ -n "$vio" ]; then class=$(echo "$vio" | sed 's/.*class=\([^ ]*\).*/\1/'); msg="$vio"; else class="miri-data-race-or-undefined-behaviour"; msg="$race"; fi
-            mkdir -p "$ROOT/replays"
-            f="$ROOT/replays/$id-thread-world-$scenario-$wseed-$fs.json"
-            python3 - "$f" "$id" "$scenario" "$wseed" "$threads" "$fs" "$class" "$msg" "$BASEFLAGS" <<'EOF'
+            if [ -n "$fs" ] || echo "$out" | grep -q -E 'THREAD-WORLD VIOLATION|Data race detected|Undefined Behavior'; then
+                [ -z "$fs" ] && fs=0
+                # the failing Miri seed alone: this is the replay, and where class and message come from
+                rep=$(run_one "$scenario" "$wseed" "$threads" "$flags -Zmiri-seed=$fs")
+                vio=$(echo "$rep" | grep -m1 -o 'THREAD-WORLD VIOLATION.*')
+                race=$(echo "$rep" | grep -m1 -E 'Data race detected|Undefined Behavior')
+                if [ -n "$vio" ]; then class=$(echo "$vio" | sed 's/.*class=\([^ ]*\).*/\1/'); msg="$vio";
+                elif [ -n "$race" ]; then class="miri-data-race-or-undefined-behaviour"; msg="$race";
+                else echo "harness error: thread world: Miri seed $fs of '$scenario $wseed $threads' failed in the sweep but not when run alone" >&2; exit 2; fi
+                mkdir -p "$ROOT/replays"
+                f="$ROOT/replays/$id-thread-world-$scenario-$wseed-$fs.json"
+                python3 - "$f" "$id" "$scenario" "$wseed" "$threads" "$fs" "$class" "$msg" "$flags" <<'EOF2'
 import json, sys
 f, pid, sc, ws, th, ms, cl, msg, flags = sys.argv[1:]
 json.dump({"engine": "thread-world", "property": pid, "scenario": sc, "workload_seed": int(ws), "threads": int(th), "miri_seed": int(ms), "miriflags": flags, "violation_class": cl, "message": msg}, open(f, "w"), indent=1)
-EOF
-            # the replay must reproduce it before it is reported
-            rep=$(run_one "$scenario" "$wseed" "$threads" "$BASEFLAGS -Zmiri-seed=$fs")
-            if echo "$rep" | grep -q -E "class=$class|Data race detected|Undefined Behavior"; then
+EOF2
                 echo "  thread world: $msg"
                 echo "  violation class: thread-world $class"
                 echo "VIOLATION property=$id replay=$f"
                 exit 1
             fi
-            echo "harness error: thread world violation (Miri seed $fs) did not reproduce on replay" >&2
-            exit 2
-        fi
-        if [ "$n_ok" -ne "$nseeds" ]; then
-            echo "harness error: thread world: $n_ok of $nseeds executions of '$scenario $wseed $threads' reported ok and none reported a violation:" >&2
-            echo "$out" | grep -E '^error' -A6 | head -30 >&2
-            exit 2
-        fi
+            if [ "$n_ok" -ne "$k" ]; then
+                echo "harness error: thread world: $n_ok of $k executions of '$scenario $wseed $threads' reported ok and none reported a violation:" >&2
+                echo "$out" | grep -E '^error' -A6 | head -30 >&2
+                exit 2
+            fi
+        done
+        summary="$summary $scenario:${w}x${k}"
     done
     wall=$(( $(date +%s) - start ))
-    echo "  batch thread-world      runs=$total exec=$total ok=$okc ${wall}s (scenario $scenario: real rayon under Miri's seeded scheduler, $nwork workloads x $nseeds Miri seeds)"
-    python3 - "$ROOT/evidence/$id.json" "$scenario" "$nwork" "$nseeds" "$total" "$wall" "$BASEFLAGS" <<'EOF'
+    echo "  batch thread-world      runs=$total exec=$total ok=$okc ${wall}s (real rayon under Miri's seeded scheduler; scenario:workloads x Miri seeds =$summary)"
+    python3 - "$ROOT/evidence/$id.json" "$summary" "$total" "$wall" "$BASEFLAGS" <<'EOF2'
 import json, sys
-f, sc, nw, ns, total, wall, flags = sys.argv[1:]
+f, summary, total, wall, flags = sys.argv[1:]
 try:
     e = json.load(open(f))
 except Exception:
     sys.exit(0)
 c = e.setdefault("coverage", {})
-c["thread_world"] = {"scenario": sc, "workloads": int(nw), "miri_seeds_per_workload": int(ns), "executions": int(total), "all_ok": True, "wall_s": int(wall), "miriflags": flags,
-    "what": "mahf's parallel path on the real rayon crate, every thread interleaving decided by Miri's seeded scheduler (preemption at basic-block ends with rate 0.05); data-race detection on; one (workload seed, threads, Miri seed) tuple replays exactly",
-    "real": ["mahf", "rayon", "rayon-core", "crossbeam-*", "rand"], "stub": ["the machine: Miri interprets MIR instead of running native code"]}
+c["thread_world"] = {"scenarios (workloads x Miri seeds)": summary.strip(), "executions": int(total), "all_ok": True, "wall_s": int(wall), "miriflags": flags + " (+ -Zmiri-disable-isolation for the experiment scenario)",
+    "what": "mahf's parallel paths on the real rayon crate, every thread interleaving decided by Miri's seeded scheduler (preemption at basic-block ends with rate 0.05); data-race detection on; one (scenario, workload seed, threads, Miri seed) tuple replays exactly",
+    "real": ["mahf", "rayon", "rayon-core", "crossbeam-*", "rand", "indicatif, ciborium, ron, std::fs (experiment scenario)"], "stub": ["the machine: Miri interprets MIR instead of running native code"]}
 c.setdefault("counters", {})["thread-world executions (real rayon under Miri)"] = int(total)
 e["coverage"] = c
 json.dump(e, open(f, "w"), indent=1)
-EOF
+EOF2
     exit 0
     ;;
 replay)
@@ -89,16 +97,17 @@ replay)
     read -r id scenario wseed threads ms class <<<"$(python3 -c "
 import json,sys
 d=json.load(open(sys.argv[1])); print(d['property'], d['scenario'], d['workload_seed'], d['threads'], d['miri_seed'], d['violation_class'])" "$f")"
+    flags="$BASEFLAGS"; [ "$scenario" = exp ] && flags="$BASEFLAGS -Zmiri-disable-isolation"
     if ! available; then echo "harness error: cargo +nightly miri is not available" >&2; exit 2; fi
-    rep=$(run_one "$scenario" "$wseed" "$threads" "$BASEFLAGS -Zmiri-seed=$ms")
-    line=$(echo "$rep" | grep -m1 -E '^THREAD-WORLD|Data race detected|Undefined Behavior')
+    rep=$(run_one "$scenario" "$wseed" "$threads" "$flags -Zmiri-seed=$ms")
+    line=$(echo "$rep" | grep -m1 -o -E 'THREAD-WORLD.*|Data race detected.*|Undefined Behavior.*')
     echo "replay: $line"
     if echo "$rep" | grep -q -E "class=$class |Data race detected|Undefined Behavior"; then
         echo "replay: reproduces the recorded violation class"
         echo "VIOLATION property=$id replay=$f"
         exit 1
     fi
-    if echo "$rep" | grep -q '^THREAD-WORLD ok'; then
+    if echo "$rep" | grep -q 'THREAD-WORLD ok'; then
         echo "replay: no violation (the property holds on this case for the current tree)"
         exit 0
     fi
